@@ -86,7 +86,7 @@ static size_t v_w_setEndOfPropertyTLV(void *b, size_t off) {
 }
 
 static int v_ctx_obj;
-#define V_RX_N 9216            /* a receive buffer of the largest MTU: the contract of answerHello requires MTU readable bytes */
+#define V_RX_N 64              /* answerHello reads the base header and the Discover upper header only (its contract requires 36 readable bytes) */
 
 struct in_hello {
     struct v_cfg cfg;
